@@ -199,12 +199,30 @@ fn backend_conn(mut s: TcpStream, who: &'static str) {
                 if !flow_gate(&req) {
                     return;
                 }
-                for _ in 0..(if flow == "hints2" { 2 } else { 1 }) {
+                for k in 0..(if flow == "hints2" { 2usize } else { 1 }) {
                     if s.write_all(b"HTTP/1.1 103 Early Hints\r\nLink: </c10.css>; rel=preload; as=style\r\n\r\n").is_err() {
                         return;
                     }
+                    // the next message leaves once the client holds this one (it says so: `allow` counts the interim
+                    // responses it has read; at most 8 s are waited for that) and FLOW_FINAL_DELAY_MS later: however
+                    // late the worker's thread runs, it never finds two messages in one read
+                    let _ = resp_wait(&req, Duration::from_secs(8), |st| st.allow > k);
                     thread::sleep(Duration::from_millis(FLOW_FINAL_DELAY_MS));
                 }
+            }
+            // one or two 103 Early Hints and the final response in ONE write: the proxy reads them all at once
+            // (the stage "interim relayed, final response awaited" lasts no time at all)
+            "hints0" | "hints00" => {
+                if !flow_gate(&req) {
+                    return;
+                }
+                let body = format!("{who}:{req}");
+                let hint = "HTTP/1.1 103 Early Hints\r\nLink: </c10.css>; rel=preload; as=style\r\n\r\n";
+                let resp = format!("{}HTTP/1.1 200 OK\r\nContent-Length: {}\r\nContent-Type: text/plain\r\n\r\n{}", hint.repeat(if flow == "hints00" { 2 } else { 1 }), body.len(), body);
+                if s.write_all(resp.as_bytes()).is_err() {
+                    return;
+                }
+                continue;
             }
             // a plain exchange whose answer waits for the gate (the first of two pipelined requests)
             "gate" => {
@@ -1612,7 +1630,7 @@ fn open_flow_slot(sp: &SlotSpec, r: usize, a: usize, addr: SocketAddr, req: &str
             m.extend_from_slice(flow_head("POST", req, "expect", Some(BODY.len()), "Expect: 100-continue\r\n").as_bytes());
             "expectHead"
         }
-        "hints" | "hints2" => {
+        "hints" | "hints2" | "hints0" | "hints00" => {
             m.extend_from_slice(flow_head("POST", req, sp.flow, Some(BODY.len()), "").as_bytes());
             m.extend_from_slice(BODY);
             "awaitResp"
@@ -1722,6 +1740,15 @@ fn flow_read_out(s: &mut Slot, to: Duration, r: usize, ctl: &mut Ctl) -> (String
                         if status.starts_with('1') && !f.end_stream() {
                             let code: u16 = status.parse().unwrap_or(0);
                             interims.push(code);
+                            // the backend sends its next message once it knows the client holds this one: a client
+                            // that got here late (it reads its slots one after the other) leaves too little of the
+                            // graceful deadline for the rest of the exchange
+                            if let Some(t0) = ctl.stop_at {
+                                if t0.elapsed() > Duration::from_millis(3500) {
+                                    ctl.inconclusive = Some(format!("overloaded: the parked H2 client read its interim response {} ms after the stop, too close to the graceful deadline", t0.elapsed().as_millis()));
+                                }
+                            }
+                            resp_update(&s.req, |st| st.allow += 1);
                             ctl.log(json!({"e": "Interim", "r": r, "code": code}));
                             status.clear();
                         }
@@ -1751,6 +1778,7 @@ fn flow_read_out(s: &mut Slot, to: Duration, r: usize, ctl: &mut Ctl) -> (String
                 };
                 if m.status >= 100 && m.status < 200 && m.status != 101 {
                     interims.push(m.status);
+                    resp_update(&s.req, |st| st.allow += 1);
                     ctl.log(json!({"e": "Interim", "r": r, "code": m.status}));
                     if m.status == 100 && flow == "expect" && wrote.is_none() {
                         // told to go on: the body follows
@@ -2843,21 +2871,26 @@ fn scenarios(thorough: bool, rng: &mut StdRng) -> Vec<Scenario> {
             "upgrade" => "upgrading",
             "early" => "midBody",
             "pipelined" => "pipelined",
-            "h2hints" => "h2Await",
+            f if f.starts_with("h2") => "h2Await",
             _ => "awaitResp",
         };
-        SlotSpec { stage, partial: false, release, resp: None, big_first: false, tcp_stall: false, flow: if flow == "h2hints" { "hints" } else { flow } }
+        SlotSpec { stage, partial: false, release, resp: None, big_first: false, tcp_stall: false, flow: flow.strip_prefix("h2").unwrap_or(flow) }
     };
-    const FLOWS: [&str; 7] = ["expect", "hints", "hints2", "upgrade", "early", "pipelined", "h2hints"];
+    // `hints0` / `hints00` (one / two 103 and the final response in ONE write) are scheduled only on request (env
+    // C10_COALESCED): sozu strands a final response that it reads together with an interim one, stop or no stop - open
+    // finding C02 interim-swallows-final-response, not a matter of the stop (see design_notes/C10.md)
+    let coalesced = std::env::var("C10_COALESCED").is_ok();
+    const ALL_FLOWS: [&str; 10] = ["expect", "hints", "hints2", "upgrade", "early", "pipelined", "h2hints", "hints0", "h2hints00", "h2hints0"];
+    let flows: &[&'static str] = if coalesced { &ALL_FLOWS } else { &ALL_FLOWS[..7] };
     if thorough {
         let mut k = 0usize;
         for (mode, ord) in [("handover", "upgradeRs"), ("handover", "stopFirst"), ("handover", "startFirst"), ("softstop", "stopFirst")] {
-            for (f, flow) in FLOWS.iter().enumerate() {
+            for (f, flow) in flows.iter().enumerate() {
                 for rel in ["afterStop", "afterAll", "beforeStop"] {
                     k += 1;
                     let other = match k % 3 {
                         0 => slot(rng.random_range(0..STAGES.len()), RELEASES[k % 3]),
-                        _ => fslot(FLOWS[(f + k) % FLOWS.len()], "afterStop"),
+                        _ => fslot(flows[(f + k) % flows.len()], "afterStop"),
                     };
                     push(&mut v, mode, ord, LSETS[k % LSETS.len()], vec![fslot(flow, rel), other], "none", 0);
                 }
@@ -2873,6 +2906,10 @@ fn scenarios(thorough: bool, rng: &mut StdRng) -> Vec<Scenario> {
         push(&mut v, "handover", "startFirst", LSETS[3], vec![fslot("pipelined", "afterStop"), fslot("expect", "afterAll")], "none", 0);
         push(&mut v, "softstop", "stopFirst", LSETS[1], vec![fslot("upgrade", "afterStop"), slot(o, RELEASES[o % 3])], "none", 0);
         push(&mut v, "handover", "upgradeRs", LSETS[1], vec![fslot("hints", "afterStop"), fslot("h2hints", "afterAll")], "none", 0);
+        if coalesced {
+            let (x, y) = if rng.random_range(0..2usize) == 0 { ("h2hints0", "hints00") } else { ("h2hints00", "hints0") };
+            push(&mut v, "softstop", "stopFirst", LSETS[1], vec![fslot(x, "afterStop"), fslot(y, "afterStop")], "none", 0);
+        }
     }
     v
 }
